@@ -252,6 +252,11 @@ def check_endpoints(ctx):
 
 
 def run(ctx):
+    # "any message timing and segmentation": the framing of the byte stream (rules shared with C04.P1)
+    from .. import report
+    from .c04 import check_framing
+
+    report.share(ctx, "C20.T3", check_framing)
     classes = check_coverage(ctx)
     check_member_reads(ctx, classes)
     check_roles(ctx)
